@@ -10,6 +10,8 @@ def must_hold(d):
     bad = []
     if d["shape"] != "ok":
         bad.append("response without a well-formed string id_token")
+    # (with a stale cache - the cached key set predates the rotation that introduced k0 - the property allows either outcome for a
+    #  token signed by k0, which IS currently published: rejecting it, or accepting it after a refresh; every other check still binds)
     sig_ok = (d["sig"] == "rs-k0" and d["keys"] in ("alg", "noalg-mutated", "usesig")) or d["sig"] == "es-e0"
     if not sig_ok:
         bad.append("signature not valid under a published key with that key's algorithm (sig=%s keys=%s)" % (d["sig"], d["keys"]))
@@ -45,7 +47,7 @@ def run(ctx):
         args.append("-exp-strict")
     out, dt = vf.run_driver(args)
     ctx.timings["idtoken"] = round(dt, 2)
-    ctx.correspondence("idtoken: real openid.NewTokens (jwx verification + validation, real RSA/ECDSA/HMAC signatures, real keySetMutator) vs Model/IdToken.v",
+    ctx.correspondence("idtoken: real login + callback handlers with a fake provider minting the faulty token response (jwx verification + validation, real RSA/ECDSA/HMAC signatures, real keySetMutator, cached vs refreshed JWKS) vs Model/IdToken.v",
                        pre + ".in", pre + ".impl")
     n = acc = 0
     distinct = set()
@@ -53,7 +55,12 @@ def run(ctx):
     for line in open(pre + ".obs"):
         d = json.loads(line)
         n += 1
-        key = tuple(d[k] for k in ("sig", "keys", "iss", "aud", "exp", "iat", "nbf", "nonce", "sub", "sid", "sidreq", "acr", "acrcfg", "shape", "now_off_ms"))
+        key = tuple(d[k] for k in ("sig", "keys", "iss", "aud", "exp", "iat", "nbf", "nonce", "sub", "sid", "sidreq", "acr", "acrcfg", "shape", "jwks", "now_off_ms"))
+        # end-to-end effect: a rejected response leaves no session cookie and no store entry; an accepted one leaves exactly one usable session
+        if not d["accepted"] and (d["session_cookie"] or d.get("store_keys_after", 0) != d.get("store_keys_before", 0)):
+            ctx.violation("c03-session-after-rejection", "the callback answered %s but a session cookie / store entry was produced" % d["status"], {"point": d["point"]})
+        if d["accepted"] and not (d["session_usable"] and d.get("store_keys_after", 0) == d.get("store_keys_before", 0) + 1):
+            ctx.violation("c03-accepted-without-session", "the callback redirected with a session cookie but no usable session exists", {"point": d["point"]})
         distinct.add(key)
         if d["accepted"]:
             acc += 1
@@ -61,13 +68,13 @@ def run(ctx):
             if bad:
                 k = "c03-epoch-exp-accepted" if bad == ["exp not within the permitted skew (exp=epoch)"] else "c03-invalid-token-accepted"
                 ctx.violation(k, "token response accepted although: " + "; ".join(bad), {"point": d["point"], "checks_failed": bad})
-        for dim in ("sig", "keys", "aud", "exp", "shape"):
+        for dim in ("sig", "keys", "aud", "exp", "shape", "jwks"):
             dist.setdefault(dim, {}).setdefault(str(d[dim]), 0)
             dist[dim][str(d[dim])] += 1
     base_ok = False
     for line in open(pre + ".obs"):
         d = json.loads(line)
-        if not must_hold(d) and d["exp"] in ("far",) and d["iat"] == "past" and d["nbf"] in ("missing", "past") and d["sub"] == "ok":
+        if not must_hold(d) and d["exp"] in ("far",) and d["iat"] == "past" and d["nbf"] in ("missing", "past") and d["sub"] == "ok" and (d["jwks"] == "fresh" or d["sig"] == "es-e0"):
             if not d["accepted"]:
                 ctx.violation("c03-valid-token-rejected", "a token passing every check was rejected: " + d["error"], {"point": d["point"]})
             base_ok = True
@@ -75,6 +82,6 @@ def run(ctx):
     ctx.extra["input_distribution"] = dict(dist, points=n, accepted=acc)
     ctx.samples.append({"first_point": json.loads(open(pre + ".obs").readline())["point"]})
     ctx.rule = ("fault lattice {signature kind x key-set shape x iss x aud shape x exp x iat x nbf x nonce x sub x sid x sid-required x acr x configured acr x response shape x "
-                "sub-second clock offset}: baseline, every single deviation and every pair of deviations (thorough: triples with six of the dimensions); tokens are assembled and signed "
+                "cached-JWKS freshness x sub-second clock offset}: baseline, every single deviation and every pair of deviations (thorough: triples with six of the dimensions); tokens are assembled and signed "
                 "by hand (RS256 / PS256 / ES256 / HS256-over-public-key / none)")
     ctx.assumptions += ["ideal signatures (real RSA / ECDSA / HMAC are exercised but not modelled)", "jwx v2.1.4 behaviour is modelled, tied by this lattice"]
